@@ -24,6 +24,7 @@ type options struct {
 	seed       int
 	dumpDir    string
 	noReplay   bool
+	noBounded  bool
 	noEvidence bool
 	only       string
 }
@@ -43,6 +44,7 @@ func main() {
 	fs.IntVar(&o.timeout, "timeout", 0, "per-obligation solver timeout in seconds (default 30 quick / 120 thorough; obligations of the unchanged tree need at most ~7 s, the margin absorbs a slower or loaded machine)")
 	fs.StringVar(&o.dumpDir, "dump", "", "write every query to this directory")
 	fs.BoolVar(&o.noReplay, "no-replay", false, "do not run replays")
+	fs.BoolVar(&o.noBounded, "no-bounded", false, "do not run the bounded checks registered in contracts")
 	fs.BoolVar(&o.noEvidence, "no-evidence", false, "do not (re)write the evidence file (used when checking deliberately broken trees)")
 	fs.StringVar(&o.only, "only", "", "only obligations whose name contains this string")
 	var args []string
@@ -119,6 +121,7 @@ func usage() {
 // ---------------------------------------------------------------------------
 
 type checkResult struct {
+	bounded       []boundedResult
 	prop          string
 	obls          []*Obligation
 	funcs         []funcInfo
@@ -490,7 +493,70 @@ func cmdCheck(prop string, o *options) int {
 	cr := generate(p, prop)
 	cr.loadSecs = loadSecs
 	cr.solveSecs = discharge(cr.obls, o)
+	if !o.noBounded {
+		runBoundedChecks(p, cr, o)
+	}
 	return report(p, cr, o, time.Since(t0).Seconds())
+}
+
+// boundedResult: outcome of one bounded check of the real code (never counted among the proof obligations).
+type boundedResult struct {
+	Name     string  `json:"name"`
+	Function string  `json:"function"`
+	Driver   string  `json:"driver"`
+	Bound    string  `json:"what_is_enumerated_and_the_bound"`
+	Status   string  `json:"status"` // held | violated | error
+	Summary  string  `json:"summary"`
+	Seconds  float64 `json:"seconds"`
+	Cmd      string  `json:"cmd"`
+	Output   string  `json:"output,omitempty"`
+}
+
+func runBoundedChecks(p *Prog, cr *checkResult, o *options) {
+	for _, key := range p.contractedFuncsFor(cr.prop) {
+		fc := p.cs.Funcs[key]
+		for i, bc := range fc.Bounded {
+			if len(bc.Props) > 0 && !containsStr(bc.Props, cr.prop) {
+				continue
+			}
+			name := fmt.Sprintf("%s/BOUNDED.%s", p.shortKey(key), bc.Driver)
+			if bc.Label != "" {
+				name = fmt.Sprintf("%s/BOUNDED.%s", p.shortKey(key), bc.Label)
+			}
+			_ = i
+			if o.only != "" && !strings.Contains(name, o.only) {
+				continue
+			}
+			br := boundedResult{Name: name, Function: p.shortKey(key), Bound: bc.Text,
+				Driver: filepath.Join(o.verif, "replay", "bounded", bc.Driver+"_test.go.txt")}
+			t0 := time.Now()
+			rr := &replayResult{Driver: br.Driver, Inputs: map[string]string{}}
+			if src, err := os.ReadFile(br.Driver); err == nil {
+				if m := replayPkgRe.FindSubmatch(src); m != nil {
+					rr.Package = string(m[1])
+				}
+			}
+			runGoTestDriver(p.repoDir, rr, name, "TestGovcBounded", []string{"GOVC_BOUNDED_TIER=" + o.tier}, 600)
+			br.Seconds = round3(time.Since(t0).Seconds())
+			br.Cmd = rr.Cmd
+			for _, ln := range strings.Split(rr.Output, "\n") {
+				if strings.HasPrefix(ln, "GOVC-BOUNDED:") {
+					br.Summary = strings.TrimSpace(strings.TrimPrefix(ln, "GOVC-BOUNDED:"))
+				}
+			}
+			switch {
+			case strings.HasPrefix(br.Summary, "ok"):
+				br.Status = "held"
+			case strings.HasPrefix(br.Summary, "violated"):
+				br.Status = "violated"
+				br.Output = rr.Output
+			default:
+				br.Status = "error"
+				br.Output = rr.Output + rr.Note
+			}
+			cr.bounded = append(cr.bounded, br)
+		}
+	}
 }
 
 // ---------------------------------------------------------------------------
@@ -627,6 +693,21 @@ func report(p *Prog, cr *checkResult, o *options, wall float64) int {
 			"description": "vacuity guard failed: the assumptions of this function are contradictory or the block is unreachable", "answer": ob.Result.Answer})
 		fmt.Printf("FAILED %s (vacuity guard: %s)\n", ob.Name, ob.Result.Answer)
 		fmt.Printf("VIOLATION property=%s replay=%s no-failing-input-found\n", cr.prop, path)
+	}
+	for _, br := range cr.bounded {
+		if br.Status == "held" {
+			continue
+		}
+		violations++
+		exit = 1
+		path := writeReplayFile(o, cr.prop, br.Name, map[string]any{"property": cr.prop, "obligation": br.Name, "class": "BOUNDED",
+			"description": "bounded check of the real code: " + br.Bound, "status": br.Status, "failing_input": br.Summary, "cmd": br.Cmd, "output": br.Output})
+		fmt.Printf("FAILED %s (bounded run of the real code: %s) %s\n", br.Name, br.Status, br.Summary)
+		if br.Status == "violated" {
+			fmt.Printf("VIOLATION property=%s replay=%s\n", cr.prop, path)
+		} else {
+			fmt.Printf("VIOLATION property=%s replay=%s no-failing-input-found\n", cr.prop, path)
+		}
 	}
 	if nObl == 0 {
 		exit = 1
@@ -765,6 +846,10 @@ func writeEvidence(p *Prog, cr *checkResult, o *options, wall float64, nObl, nDi
 		"samples":                      samples,
 		"timing":                       map[string]any{"load_s": round3(cr.loadSecs), "generate_s": round3(cr.genSecs), "solve_s": round3(cr.solveSecs)},
 		"explanation":                  propertyExplanation(cr.prop),
+	}
+	if len(cr.bounded) > 0 {
+		cov["bounded_checks"] = cr.bounded
+		cov["bounded_checks_note"] = "bounded runs of the real code that stand in for clauses the verifier cannot decide; labelled bounded, not counted in obligations/discharged, nothing is claimed beyond the stated bound"
 	}
 	if extra := extraCoverage(cr.prop, o); extra != nil {
 		for k, v := range extra {
